@@ -164,6 +164,20 @@ func (cc *c06case) moreOps(cs *h.Case, tk []string, op string, optRoster func(st
 				cs.Fail("wellformed-rejected", "a binary form whose roster fits the description was rejected: "+err.Error()+" — "+op)
 			}
 			c06untouched(cs, t2, op)
+			// the same form into a value that already holds a tree: the value must be what it was
+			if any := cc.trees[l]; any != nil && any.Roster != nil && !c06keyless(any.Roster) {
+				t3 := &onet.Tree{ID: any.ID, Roster: any.Roster, Root: any.Root}
+				if err3 := t3.BinaryUnmarshaler(suite, buf); err3 == nil || t3.ID != any.ID || t3.Roster != any.Roster || t3.Root != any.Root {
+					cs.Fail("rejected-binary-form-partly-stored", "BinaryUnmarshaler of a rejected form into a Tree value that holds a tree changed that value (or did not fail) — "+op)
+				} else if b3, e3 := t3.BinaryMarshaler(); e3 != nil {
+					cs.Fail("rejected-binary-form-partly-stored", "after a rejected BinaryUnmarshaler the value no longer marshals — "+op)
+				} else {
+					t4 := &onet.Tree{}
+					if e4 := t4.BinaryUnmarshaler(suite, b3); e4 != nil || c06sameTree(any, t4) != "" {
+						cs.Fail("rejected-binary-form-partly-stored", "after a rejected BinaryUnmarshaler the value no longer round-trips to itself — "+op)
+					}
+				}
+			}
 			return c06errClass(err)
 		}
 		if bad {
